@@ -98,6 +98,17 @@ theorem ply_reads_spec_pointcloud (c : Coding α) (f : SpecFile α) (hf : f.form
   rw [hread, findElement_spec_face, hface]
   simp [faceStageBin, assemble, bind, Except.bind, pure, Except.pure]
 
+/-- PARTIAL GROUPS stay scalars: a recognised group one of whose names is absent from the header (e.g. only `x`, `y`) is
+NOT claimed as a vector (guards: distinct names, one scalar type among the group's properties that are present), so by
+`ply_unclaimed_property_gets_reader` its members become scalar attributes -/
+theorem ply_group_absent_not_built (binary : Bool) (props : List (Bytes × SType)) (attr : Bytes) (names : List Bytes)
+    (hn : names.Nodup) (hnd : (props.map (·.1)).Nodup) (t : SType) (huni : ∀ p ∈ props, p.1 ∈ names → p.2 = t)
+    (k : Nat) (hk : k < names.length) (habs : ∀ p ∈ props, p.1 ≠ names[k]) :
+    buildVec binary props attr names = none :=
+  buildVec_none binary props attr names hn hnd t huni k hk habs
+
+example : buildVec true [(nm "x", .float), (nm "y", .float)] positionAttr [nm "x", nm "y", nm "z"] = none := by decide
+
 /-! non-vacuity: a 2-vertex file `z float, q uchar, x float, y float` (permuted position group + extra 8-bit scalar) -/
 
 def exFile : SpecFile Nat :=
